@@ -73,7 +73,7 @@ def model_to_job(res, ob, idx):
         elif k == "$ghost":
             g = {}
             for gk, gv in v.items():
-                g[gk] = float(eval_frac(gv)) if isinstance(gv, dict) else gv
+                g[gk] = float(eval_frac(gv)) if isinstance(gv, dict) and "real" in gv else gv
             job["ghost"] = g
         elif k == "$glob":
             job["globs"] = {n: (x.get("$map") if isinstance(x, dict) else x) for n, x in v.items()}
